@@ -62,6 +62,28 @@ def strategy(tier):
     return _case()
 
 
+def exhaustive(tier):
+    """float nodes with a fixed value, a precision and a bound inside the value's rounding bucket, against
+    numbers that equal the value at that precision: alone, as a list element and as a dict member"""
+    for p in (1, 2, 3):
+        unit = 10.0 ** -p
+        for v in (1.04, -1.04, 0.05, 2.675, 1.25, 0.96):
+            rv = round(v, p)
+            for bound in ("min", "max", None):
+                node = {"t": "float", "value": v, "precision": p, "order": ["precision"]}
+                if bound == "min":
+                    node["min"] = (min(rv, v) + v) / 2 if rv < v else v - unit
+                    node["order"] = ["min", "precision"]
+                elif bound == "max":
+                    node["max"] = (max(rv, v) + v) / 2 if rv > v else v + unit
+                    node["order"] = ["precision", "max"]
+                for w in (v, rv, v + 0.3 * unit, v - 0.3 * unit, v + 0.04 * unit, v - 0.04 * unit, v + 2 * unit):
+                    yield {"spec": node, "value": w}
+                    yield {"spec": {"t": "list", "form": "typed", "elem": node}, "value": [w, v]}
+                    yield {"spec": {"t": "dict", "entries": [{"key": "x", "opt": False, "spec": node}],
+                                    "relaxed": False}, "value": {"x": w}}
+
+
 # ---------------------------------------------------------------------------------------------
 def _ops(path):
     return list(path)
@@ -170,6 +192,12 @@ def check_error(e, root, spec, who):
         raise Violation("format-raises", f"{who}: {e!r}.format raised {ex!r}")
     if not isinstance(msg, str) or not msg.strip():
         raise Violation("empty-message", f"{who}: {e!r} renders to {msg!r}")
+    # rendering is reporting, not editing: the error still points where it pointed, and renders the same again
+    if [_operand(o) for o in _ops(e.path)] != [_operand(o) for o in ops] or e.actual_value is not act:
+        raise Violation("error-changed-by-formatting", f"{who}: after format() the error reads {e!r}, "
+                                                       f"its path was {_render(ops)}")
+    if e.format(Formatter()) != msg:
+        raise Violation("error-changed-by-formatting", f"{who}: {e!r} renders differently the second time")
     if name == "MissingKey":
         want = _render(ops) + f"[{e.missing_key!r}]"
     elif name == "MissingElement":
@@ -393,9 +421,10 @@ def check(case, ctx):
         return
     nontrivial = False
     for e in errors:
+        ops_before = _ops(e.path)
         name, depth = check_error(e, v, spec, "validate")
         ctx.label(f"kind:{name}@{'root' if depth == 0 else 'nested'}")
-        if depth >= 1 and _siblings(v, _ops(e.path)) >= 2:
+        if depth >= 1 and _siblings(v, ops_before) >= 2:
             nontrivial = True
     # (5) compositionality / no leakage between siblings
     want = _expected_composition(spec, S, v)
